@@ -46,7 +46,10 @@ def grammar_items(tier: str) -> list:
     bf = families.binary_family(1 if quick else 2)
     n_bin = 2 if quick else 3
     for g in bf:
-        items.append((g, "<start>", n_bin, [0x00, 0x01, 0x61, 0x80, 0xFF] if not quick else [0x00, 0x01, 0x61, 0x80]))
+        items.append((g, "<start>", n_bin, [0x00, 0x01, 0x0A, 0x61, 0x80, 0xFF] if not quick else [0x00, 0x01, 0x0A, 0x61, 0x80]))
+    # '.' in text regexes against an alphabet with a newline
+    for e in families.exprs([families.Rx("."), Lit("a"), families.Rx(".a")], 1):
+        items.append((RefGrammar({"<start>": e}), "<start>", 3 if quick else 4, ["a", "\n", "b"]))
     return items
 
 
